@@ -4,7 +4,7 @@
    Run in this directory:  coqc -Q ../coq ACV Extract.v   (writes model.ml / model.mli here). *)
 From Coq Require Extraction.
 From Coq Require Import ExtrOcamlBasic ExtrOcamlString.
-From ACV Require Import Model.Cli Model.Peg Model.PathGrammar Model.Graph Model.PathSem Model.Dnf Model.Rules Model.Report Model.Pipeline Model.Escape Model.Lexical Model.Names Model.JsonLd Model.Yaml Model.ProfileParser Model.YamlRewrite Model.YamlRespell Model.Interleave Model.PathGen Model.RuleGen Model.Compile Model.Elab.
+From ACV Require Import Model.Cli Model.Peg Model.PathGrammar Model.Graph Model.PathSem Model.Dnf Model.Rules Model.Report Model.Pipeline Model.Escape Model.Lexical Model.Names Model.JsonLd Model.Yaml Model.ProfileParser Model.YamlRewrite Model.YamlRespell Model.Interleave Model.PathGen Model.RuleGen Model.Compile Model.Elab Model.ReportJson.
 Extraction Language OCaml.
 Extraction "model.ml" Cli.run Cli.run_history Cli.last_ok Cli.spec_run Cli.spec_history
   PathGrammar.parse_path_with PathGrammar.default_fuel
@@ -19,4 +19,4 @@ Extraction "model.ml" Cli.run Cli.run_history Cli.last_ok Cli.spec_run Cli.spec_
   JsonLd.flatten JsonLd.denote
   Yaml.expand_compact Yaml.yget
   ProfileParser.verdict ProfileParser.parse_profile YamlRewrite.related YamlRespell.respell_doc_b YamlRespell.verdict_keys
-  Interleave.handed PathGen.path_rule_lines RuleGen.rule_lines RuleGen.count_snippet RuleGen.pattern_snippet RuleGen.datatype_snippet RuleGen.numeric_snippet RuleGen.in_snippet RuleGen.contains_snippet RuleGen.cmp_snippet Elab.compile Elab.declarative.
+  Interleave.handed PathGen.path_rule_lines RuleGen.rule_lines RuleGen.count_snippet RuleGen.pattern_snippet RuleGen.datatype_snippet RuleGen.numeric_snippet RuleGen.in_snippet RuleGen.contains_snippet RuleGen.cmp_snippet Elab.compile Elab.declarative ReportJson.build_report_text.
